@@ -260,11 +260,15 @@ func streamRListen(c *ctx) {
 		}
 		u := uhppote.NewUHPPOTE(types.BindAddrFrom(netip.MustParseAddr("127.0.0.1"), 0), types.BroadcastAddr{},
 			types.ListenAddrFrom(netip.MustParseAddr("127.0.0.1"), uint16(port)), timeout, nil, n%2 == 1)
+		racesBefore := raceReports()
 		res := []string{}
 		for cycle := 0; cycle < 3; cycle++ { // stop and re-bind immediately
 			var mu sync.Mutex
 			evs, errs, conn := []uint32{}, 0, 0
 			slowFirst := cycle == 1 // the application is busy with the first event while the others arrive
+			// ... and in one cycle of one client it is still busy with it, for a second and a half, when the listener is
+			// told to stop: Listen returns only when everything it has read is handed over, nothing is lost, nothing crashes
+			busyStop := n%6 == 3 && cycle == 2
 			l := &cbListener{
 				onConnected: func() { mu.Lock(); conn++; mu.Unlock() },
 				onEvent: func(s *types.Status) {
@@ -274,6 +278,9 @@ func streamRListen(c *ctx) {
 					mu.Unlock()
 					if slowFirst && first {
 						time.Sleep(60 * time.Millisecond)
+					}
+					if busyStop && first {
+						time.Sleep(1500 * time.Millisecond)
 					}
 				},
 				onError: func(error) { mu.Lock(); errs++; mu.Unlock() },
@@ -340,6 +347,9 @@ func streamRListen(c *ctx) {
 				s.Close()
 			}
 			wait := time.Now().Add(time.Second)
+			if busyStop {
+				wait = time.Now().Add(150 * time.Millisecond)
+			}
 			for {
 				mu.Lock()
 				got := len(evs) + errs
@@ -357,7 +367,17 @@ func streamRListen(c *ctx) {
 				if err != nil {
 					end = "returned-error"
 				}
-			case <-time.After(2 * time.Second):
+			case <-time.After(5 * time.Second):
+			}
+			if busyStop { // what was read before the stop is still handed over (the dispatcher may finish after Listen returned)
+				for until := time.Now().Add(3 * time.Second); time.Now().Before(until); time.Sleep(5 * time.Millisecond) {
+					mu.Lock()
+					got := len(evs) + errs
+					mu.Unlock()
+					if got >= len(want)+bad {
+						break
+					}
+				}
 			}
 			mu.Lock()
 			ok := fmt.Sprint(evs) == fmt.Sprint(want) && errs == bad && conn == 1
@@ -367,6 +387,9 @@ func streamRListen(c *ctx) {
 			} else {
 				res = append(res, fmt.Sprintf("cycle-bad(events=%v want=%v errors=%d/%d connected=%d %s)", evs, want, errs, bad, conn, end))
 			}
+		}
+		if d := raceReports() - racesBefore; d > 0 { // (under the race detector only)
+			res = append(res, fmt.Sprintf("races=%d", d))
 		}
 		c.w.Emit(fmt.Sprintf("rlisten port=%d cycles=3 timeout=%d", port, timeout.Milliseconds()), strings.Join(res, " "), "rlisten", fmt.Sprintf("timeout/%v", timeout))
 	}
